@@ -5,6 +5,10 @@ From Coq Require Import ZArith Bool List.
 Open Scope Z_scope.
 Open Scope bool_scope.
 
+(* every generated definition g_f is registered with `Hint Unfold g_f : gcores`, so that the tie proofs can
+   unfold generated helpers whose names they do not know (autounfold with gcores) *)
+Create HintDb gcores.
+
 (* slices and arrays of integers are lists: s[i], s[i] = v, len(s), s[:n], make([]T, n) *)
 Definition g_idx (l : list Z) (i : Z) : Z := nth (Z.to_nat i) l 0.
 Fixpoint g_upd_nat (l : list Z) (n : nat) (v : Z) : list Z :=
